@@ -2,7 +2,7 @@
   Driver family `grp` (C16): consumer groups.
 
   Request lines (names are decimal numbers, ids `ms-seq`, id lists joined by `|`, `.` = empty):
-    quirks <startFix> <noackFix> <rangeFix> <histFix>       (0/1; which repairs the tree has)
+    quirks <startFix> <noackFix> <rangeFix> <histFix> <redeliverFix> <filterFix>     (0/1; which repairs the tree has)
     reset | add <id> | del <ids> | create <g> <id|$> | destroy <g> | setid <g> <id|$>
     createc <g> <c> | delc <g> <c> | read <g> <c> <>|id> <count|-> <noack 0|1> | ack <g> <ids>
     bad <kind> <g>   (malformed command at handler level: refused, nothing changes)
@@ -249,10 +249,10 @@ def timesOf (d : DState) (g : Name) : Code.Times := (alGet g d.times).getD []
 
 def step (d : DState) (ws : List String) : DState × String :=
   match ws with
-  | ["quirks", a, b, c, e] =>
-    match parseBool a, parseBool b, parseBool c, parseBool e with
-    | some a, some b, some c, some e => ({ d with q := ⟨a, b, c, e⟩ }, "ok")
-    | _, _, _, _ => (d, "bad-op")
+  | ["quirks", a, b, c, e, f, g] =>
+    match parseBool a, parseBool b, parseBool c, parseBool e, parseBool f, parseBool g with
+    | some a, some b, some c, some e, some f, some g => ({ d with q := ⟨a, b, c, e, f, g⟩ }, "ok")
+    | _, _, _, _, _, _ => (d, "bad-op")
   | ["bad", kind, g] =>
     -- a malformed / refused administration command (handler level): it is refused and changes nothing
     match num g with
